@@ -65,7 +65,7 @@ def run(prog, rep):
 
     # C01.5 sim: mutex field written only in the constructor, from p_mutex_new
     writers = []
-    for f in sim.functions.values():
+    for f in sim.roots():
         for b, i, n in f.nodes():
             if n["k"] == "asg":
                 l = strip_casts(n["l"])
@@ -73,7 +73,7 @@ def run(prog, rep):
                     writers.append((f, n))
     okw = len(writers) == 1 and writers[0][0].name == "p_spinlock_new"
     if okw:
-        org = [x for x in sim.fn("p_spinlock_new", raw=True).origins(writers[0][1]["r"]) if x["k"] != "int"]
+        org = [x for x in writers[0][0].origins(writers[0][1]["r"]) if x["k"] != "int"]
         okw = len(org) >= 1 and all(x["k"] == "call" and callee_of(x) == "p_mutex_new" for x in org)
     rep.ob("C01.5", sim.fn("p_spinlock_new"), "field:mutex", okw,
            "PSpinLock_.mutex is assigned once, in p_spinlock_new, from p_mutex_new ()" if okw else
